@@ -43,7 +43,10 @@ Fixpoint all_args (ch : list sig) : list string :=
   end.
 
 (* every key instance_as_dict can emit for a class (hasattr only removes some) *)
-Definition serialised_keys (c : search_class) : list string := all_args (sc_chain c) ++ sc_fields c.
+Definition serialised_keys (c : search_class) : list string :=
+  all_args (sc_chain c) ++ sc_base_args c ++ sc_fields c.
+Definition keys_known (c : search_class) (keys : list string) : bool :=
+  forallb (fun k => mem k (serialised_keys c)) keys.
 
 Definition reload_ok (c : search_class) (keys : list string) : bool := call_ok (sc_chain c) keys.
 
@@ -60,7 +63,8 @@ Definition drawer_pinned : search_class :=
           s_varkw := true;
           s_super_kw := ["name"; "path_prefix"; "unique_tag"; "initializer"; "iterations_per_update"; "number_of_cores"; "session"];
           s_forwards := true; s_pops := [] |};
-       nls_sig ] |}.
+       nls_sig ];
+     sc_base_args := ["initial_values"; "inplace"] |}.
 (* the same with the proposed repair (kwargs.pop("number_of_cores", None) before the super call) *)
 Definition drawer_repaired : search_class :=
   {| sc_name := "Drawer"; sc_fields := ["total_draws"];
@@ -70,7 +74,8 @@ Definition drawer_repaired : search_class :=
           s_varkw := true;
           s_super_kw := ["name"; "path_prefix"; "unique_tag"; "initializer"; "iterations_per_update"; "number_of_cores"; "session"];
           s_forwards := true; s_pops := ["number_of_cores"] |};
-       nls_sig ] |}.
+       nls_sig ];
+     sc_base_args := ["initial_values"; "inplace"] |}.
 
 Definition class_named (n : string) (l : list search_class) : option search_class :=
   find (fun c => String.eqb (sc_name c) n) l.
@@ -106,7 +111,9 @@ Record folder := {
   f_tag : option string;           (* search.json: unique_tag *)
   f_reload_id : string;            (* md5 of tokens(reloaded search, reloaded model, tag): oracle value *)
   f_model : string;                (* model.json (canonical digest) *)
-  f_info : option string;          (* info.json (canonical digest) *)
+  f_info : option string;          (* info.json (canonical digest of the typed dictionary) *)
+  f_info_held : option string;     (* digest of what the `info` table can hold of it: every value as SQLite's TEXT
+                                      affinity renders it (3 -> "3", true -> "1"); equal to f_info when all values are strings *)
   f_samples : option (list sample);(* samples.csv + samples_info.json *)
   f_load_error : option string;    (* exception raised when the best-fit instance is built from the stored
                                       samples and the stored model (oracle value; None = loads) *)
@@ -145,7 +152,7 @@ Definition has_id (id : string) (db : list row) : bool := existsb (fun r => Stri
 Definition fit_row (f : folder) : row :=
   {| r_id := f_reload_id f; r_name := Some (f_name f); r_tag := f_tag f;
      r_complete := Some (f_completed f); r_grid := false; r_parent := f_parent_file f;
-     r_model := Some (f_model f); r_info := f_info f; r_samples := f_samples f;
+     r_model := Some (f_model f); r_info := f_info_held f; r_samples := f_samples f;
      r_instance := option_map s_inst (best_of (f_samples f));
      r_maxll := option_map s_ll (best_of (f_samples f));
      r_jsons := f_jsons f |}.
@@ -298,6 +305,7 @@ Record fit_spec := {
   fs_stored_model : string;      (* what model.json holds (oracle; equal to fs_model when persistence is faithful) *)
   fs_load_error : option string;
   fs_info : option string;       (* None: no info / empty info *)
+  fs_info_held : option string;
   fs_samples : list sample;
   fs_interrupt : interrupt;
   fs_extra_jsons : list string;  (* written by analysis.save_attributes / search specific *)
@@ -341,16 +349,16 @@ Definition write_fit (s : fit_spec) : folder :=
   {| f_path := spec_path s; f_metadata := negb (is_prefit s); f_completed := spec_completed s; f_marker := None;
      f_parent_file := None; f_written_id := fs_id s; f_class := fs_class s; f_keys := fs_keys s;
      f_name := fs_name s; f_tag := fs_tag s; f_reload_id := fs_reload_id s; f_model := fs_stored_model s;
-     f_info := fs_info s;
+     f_info := fs_info s; f_info_held := fs_info_held s;
      f_samples := if has_samples s then Some (fs_samples s) else None;
-     f_load_error := if has_samples s then fs_load_error s else None;
+     f_load_error := if is_prefit s then None else fs_load_error s;
      f_jsons := spec_jsons s; f_analyses := if is_prefit s then [] else fs_analyses s |}.
 
 (* DatabasePaths: Fit(id = identifier) created by save_all, filled by save_samples / save_summary,
    is_complete set by completed() *)
 Definition direct_row (s : fit_spec) : row :=
   {| r_id := fs_id s; r_name := Some (fs_name s); r_tag := fs_tag s; r_complete := Some (spec_completed s);
-     r_grid := false; r_parent := None; r_model := Some (fs_model s); r_info := fs_info s;
+     r_grid := false; r_parent := None; r_model := Some (fs_model s); r_info := fs_info_held s;
      r_samples := if has_samples s then Some (fs_samples s) else None;
      r_instance := if has_samples s then option_map s_inst (best (fs_samples s)) else None;
      r_maxll := if has_samples s then option_map s_ll (best (fs_samples s)) else None;
@@ -395,16 +403,39 @@ Definition db_matches (model obs : list row) : bool :=
   && forallb (fun r => match find_row (r_id r) obs with Some o => row_eqb r o | None => false end) model
   && forallb (fun o => is_some (find_row (r_id o) model)) obs.
 
+(* what the database file holds afterwards (fresh session), and the exception that escaped, if any *)
 Inductive observed :=
 | ObsLoaded (rows : list row)
-| ObsRaised (exc : string).
+| ObsRaised (exc : string) (rows : list row).
 
-Definition outcome_matches (m : outcome) (o : observed) : bool :=
+(* an exception leaves the database as it was (db0): nothing of the call is committed *)
+Definition outcome_matches (db0 : list row) (m : outcome) (o : observed) : bool :=
   match m, o with
   | Loaded db, ObsLoaded rows => db_matches db rows
-  | Raised e, ObsRaised e' => String.eqb e e'
+  | Raised e, ObsRaised e' rows => String.eqb e e' && db_matches db0 rows
   | _, _ => false
   end.
+
+Definition rows_after (db0 : list row) (m : outcome) : list row :=
+  match m with Loaded db => db | Raised _ => db0 end.
+
+Definition folder_keys_known (classes : list search_class) (f : folder) : bool :=
+  match class_named (f_class f) classes with
+  | Some c => keys_known c (f_keys f)
+  | None => true
+  end.
+
+(* the identifier recomputed from the files is the identifier the fit was written under *)
+Definition reload_faithful (f : folder) : bool := String.eqb (f_reload_id f) (f_written_id f).
+Definition is_output (f : folder) : bool := f_metadata f.
+Fixpoint path_mem (p : list string) (l : list (list string)) : bool :=
+  match l with [] => false | q :: r => list_eqb String.eqb p q || path_mem p r end.
+(* `unfaithful` lists the folders of the model shapes that are recorded findings of the persistence of
+   models (C07/C08); every OTHER search output must be faithful; folders whose search could not be
+   reloaded at all (f_reload_id = "") are skipped.  (For specs the expectation is exact, see check_case.) *)
+Definition faithful_as_expected (unfaithful : list (list string)) (f : folder) : bool :=
+  if negb (is_output f) || String.eqb (f_reload_id f) "" then true
+  else path_mem (f_path f) unfaithful || reload_faithful f.
 
 Definition folder_eqb (a b : folder) : bool :=
   list_eqb String.eqb (f_path a) (f_path b) && Bool.eqb (f_metadata a) (f_metadata b)
@@ -421,37 +452,56 @@ Definition folder_eqb (a b : folder) : bool :=
                      (whether a truncated file stays behind depends on how the writer was killed) *)).
 
 Inductive case :=
-(* from_dict(to_dict(search)) for class `cls` whose search.json carries `keys`: did it succeed? *)
+(* from_dict(to_dict(search)) for class `cls` whose search.json carries `keys`: did it succeed?
+   (and: every persisted key belongs to the key universe the theorems quantify over) *)
 | CSettings (cls : string) (keys : list string) (impl_ok : bool)
 (* single fits written by the real code: (1) the folders the model predicts are the folders found,
    (2) scrape (write specs) in walk order = observed database, (3) direct rows = observed direct rows
-   (None: that fit was not written through a session, e.g. combined analyses) *)
+   (None: that fit was not written through a session), (4) the persistence of search and model is
+   faithful exactly for the specs not listed in `unfaithful` *)
 | CFits (co : bool) (specs : list fit_spec) (walk : list nat)
-        (found : list folder) (obs : observed) (direct : list (option row))
-(* arbitrary directory (grid searches, copies): scrape dir = observed database;
+        (found : list folder) (obs : observed) (direct : list (option row)) (unfaithful : list (list string))
+(* arbitrary directory (grid searches, copies, equal identifiers): scrape dir = observed database;
    per grid search: observed best fit id *)
-| CDir (co : bool) (dir : list folder) (obs : observed) (best_ids : list (string * option string)).
+| CDir (co : bool) (dir : list folder) (obs : observed) (best_ids : list (string * option string))
+       (unfaithful : list (list string))
+(* two directories loaded one after the other into the same database *)
+| CDir2 (co : bool) (dirA dirB : list folder) (obsA obsB : observed).
 
 Definition nth_spec (specs : list fit_spec) (i : nat) : list folder :=
   match nth_error specs i with Some s => [write_fit s] | None => [] end.
+
+Definition spec_faithful (s : fit_spec) : bool :=
+  String.eqb (fs_reload_id s) (fs_id s) && String.eqb (fs_stored_model s) (fs_model s).
 
 Definition check_case (classes : list search_class) (uf : bool) (c : case) : bool :=
   match c with
   | CSettings cls keys impl_ok =>
       match class_named cls classes with
-      | Some sc => Bool.eqb (reload_ok sc keys) impl_ok
+      | Some sc => Bool.eqb (reload_ok sc keys) impl_ok && keys_known sc keys
       | None => false
       end
-  | CFits co specs walk found obs direct =>
+  | CFits co specs walk found obs direct unfaithful =>
       let dir := flat_map (nth_spec specs) walk in
       Nat.eqb (List.length walk) (List.length specs)
       && list_eqb folder_eqb (map write_fit specs) found
-      && outcome_matches (scrape classes uf co dir []) obs
+      && forallb (folder_keys_known classes) dir
+      && outcome_matches [] (scrape classes uf co dir []) obs
       && list_eqb (fun s o => match o with Some r => same_fit (direct_row s) r | None => true end) specs direct
-  | CDir co dir obs best_ids =>
-      outcome_matches (scrape classes uf co dir []) obs
+      && forallb (faithful_as_expected unfaithful) found
+      && forallb (fun s => if is_prefit s || String.eqb (fs_reload_id s) "" then true
+                           else Bool.eqb (spec_faithful s) (negb (path_mem (spec_path s) unfaithful))) specs
+  | CDir co dir obs best_ids unfaithful =>
+      outcome_matches [] (scrape classes uf co dir []) obs
+      && forallb (folder_keys_known classes) dir
+      && forallb (faithful_as_expected unfaithful) dir
       && match scrape classes uf co dir [] with
          | Loaded db => forallb (fun p => opt_str_eqb (option_map r_id (best_child db (fst p))) (snd p)) best_ids
          | Raised _ => true
          end
+  | CDir2 co dirA dirB obsA obsB =>
+      let ma := scrape classes uf co dirA [] in
+      let dbA := rows_after [] ma in
+      outcome_matches [] ma obsA
+      && outcome_matches dbA (scrape classes uf co dirB dbA) obsB
   end.
